@@ -507,7 +507,7 @@ def _hier(rng, lo, hi, depth, out, mode):
 
 
 def gen_structure(rng, nframes, poc_bits=8, max_minigop=8, period_len=(1, 24), irap_weights=None,
-                  max_lead=4, first_irap=None, allow_tid0_b=True):
+                  max_lead=4, first_irap=None, allow_tid0_b=True, intra=0):
     """decode-order list of FrameSpec with full POCs.
 
     Every period starts with an IRAP picture (IDR_W_RADL / IDR_N_LP: POC 0; CRA: POC continues, optional
@@ -568,6 +568,8 @@ def gen_structure(rng, nframes, poc_bits=8, max_minigop=8, period_len=(1, 24), i
             m = 1 + rng.below(max(1, min(maxm, room, plen - count)))
             anchor = cur_max + m
             frames.append(FrameSpec(TRAIL_R, rng.choice([SLICE_P, SLICE_P, SLICE_B]), anchor, 0, period))
+            if intra and rng.below(16) < intra:
+                frames[-1].stype = SLICE_I              # intra coded picture that is not an IRAP (scene cut)
             tid0 = anchor
             order = []
             _hier(rng, cur_max + 1, anchor - 1, 1, order, rng.choice(["pyramid", "pyramid", "perm", "inc", "dec", "skew", "rand"]))
@@ -584,6 +586,8 @@ def gen_structure(rng, nframes, poc_bits=8, max_minigop=8, period_len=(1, 24), i
                 else:
                     nt, tid = (TRAIL_R if ref else TRAIL_N), depth
                 f = FrameSpec(nt, SLICE_B if rng.chance(5, 6) else SLICE_P, p, min(tid, 6), period)
+                if intra and rng.below(16) < intra:
+                    f.stype = SLICE_I                   # intra picture inside the mini-GOP hierarchy
                 frames.append(f)
                 if f.updates_tid0():
                     tid0 = p
